@@ -81,16 +81,28 @@ func StreamByte(key uint64, i int64) byte {
 
 // StreamFill fills p with stream bytes [off, off+len(p)).
 func StreamFill(key uint64, off int64, p []byte) {
-	for i := range p {
-		p[i] = StreamByte(key, off+int64(i))
+	i := 0
+	for i < len(p) {
+		o := off + int64(i)
+		w := Mix(key ^ uint64(o>>3)*0x9e3779b97f4a7c15)
+		for j := uint64(o) & 7; j < 8 && i < len(p); j++ {
+			p[i] = byte(w >> (8 * j))
+			i++
+		}
 	}
 }
 
 // StreamCheck compares p with the stream at off; returns the index of the first mismatch or -1.
 func StreamCheck(key uint64, off int64, p []byte) int {
-	for i := range p {
-		if p[i] != StreamByte(key, off+int64(i)) {
-			return i
+	i := 0
+	for i < len(p) {
+		o := off + int64(i)
+		w := Mix(key ^ uint64(o>>3)*0x9e3779b97f4a7c15)
+		for j := uint64(o) & 7; j < 8 && i < len(p); j++ {
+			if p[i] != byte(w>>(8*j)) {
+				return i
+			}
+			i++
 		}
 	}
 	return -1
@@ -108,20 +120,20 @@ type Violation struct {
 // Result is what a harness run reports to vcheck.
 type Result struct {
 	mu           sync.Mutex
-	Harness      string            `json:"harness"`
-	Args         []string          `json:"args"`
-	Seed         uint64            `json:"seed"`
-	Tier         string            `json:"tier"`
-	Evaluations  int64             `json:"evaluations"`
-	DistinctKeys map[string]int64  `json:"distinct_keys"`
-	Samples      []any             `json:"samples"`
-	Violations   []Violation       `json:"violations"`
-	Inconclusive []string          `json:"inconclusive"`
-	Observed     map[string]int64  `json:"observed"`
-	Notes        []string          `json:"notes"`
-	Extra        map[string]any    `json:"extra,omitempty"`
-	WallS        float64           `json:"wall_s"`
-	Complete     bool              `json:"complete"`
+	Harness      string           `json:"harness"`
+	Args         []string         `json:"args"`
+	Seed         uint64           `json:"seed"`
+	Tier         string           `json:"tier"`
+	Evaluations  int64            `json:"evaluations"`
+	DistinctKeys map[string]int64 `json:"distinct_keys"`
+	Samples      []any            `json:"samples"`
+	Violations   []Violation      `json:"violations"`
+	Inconclusive []string         `json:"inconclusive"`
+	Observed     map[string]int64 `json:"observed"`
+	Notes        []string         `json:"notes"`
+	Extra        map[string]any   `json:"extra,omitempty"`
+	WallS        float64          `json:"wall_s"`
+	Complete     bool             `json:"complete"`
 	vioCount     map[string]int
 	t0           time.Time
 	out          string
